@@ -45,6 +45,9 @@ struct S<C: Comp> {
     readonly_silent_checks: u64,
     restricted_partial_mut: u64,
     get_other_mut_stale: u64,
+    unmerged_created: u64,
+    unmerged: Vec<Entity>,
+    get_other_unmerged: u64,
     stale_probes: BTreeSet<Path>,
     stale_occupied: u64,
     modified_multiplicity_max: u64,
@@ -477,6 +480,9 @@ where
                     if stale_occ && mutable {
                         self.get_other_mut_stale += 1;
                     }
+                    if cur.is_some() && self.unmerged.contains(&h) {
+                        self.get_other_unmerged += 1;
+                    }
                     let suffix = if mutable { "_mut" } else { "" };
                     match (cur, res) {
                         (None, None) => {}
@@ -754,7 +760,22 @@ where
             0 | 1 => {
                 let with = self.rng.chance(1, 2);
                 let p = self.p();
-                let (h, snap) = {
+                // one creation in three goes through the shared-borrow path and stays un-merged (alive
+                // through the raised set only, on a recycled or on a never-used index) until some later
+                // maintain(): every access path has to treat such a handle as alive
+                let atomic = self.rng.chance(1, 3);
+                let (h, snap) = if atomic {
+                    let world = self.world.as_ref().unwrap();
+                    let ents = world.entities();
+                    if with {
+                        let (c, snap) = C::make(p);
+                        c.given();
+                        let mut s = world.write_storage::<C>();
+                        (ents.build_entity().with(c, &mut s).build(), Some(snap))
+                    } else {
+                        (ents.create(), None)
+                    }
+                } else {
                     let world = self.world.as_mut().unwrap();
                     if with {
                         let (c, snap) = C::make(p);
@@ -764,7 +785,11 @@ where
                         (world.create_entity().build(), None)
                     }
                 };
-                self.log(format!("create({:?}, with={})", h, with));
+                if atomic {
+                    self.unmerged_created += 1;
+                    self.unmerged.push(h);
+                }
+                self.log(format!("create{}({:?}, with={})", if atomic { "_atomic" } else { "" }, h, with));
                 if self.live.contains(&h) || self.dead.contains(&h) {
                     return Err(("C01", format!("creation returned {:?} again", h)));
                 }
@@ -808,6 +833,7 @@ where
                     }
                 }
                 self.world.as_mut().unwrap().maintain();
+                self.unmerged.clear();
                 self.log(format!("delete_atomic x{} + maintain()", self.pending_delete.len()));
                 let mut pd = std::mem::take(&mut self.pending_delete);
                 pd.sort_by_key(|e| e.id());
@@ -971,6 +997,9 @@ where
         readonly_silent_checks: 0,
         restricted_partial_mut: 0,
         get_other_mut_stale: 0,
+        unmerged_created: 0,
+        unmerged: Vec::new(),
+        get_other_unmerged: 0,
         stale_probes: BTreeSet::new(),
         stale_occupied: 0,
         modified_multiplicity_max: 0,
@@ -1133,6 +1162,8 @@ where
     rep.bump("readonly_windows_checked_silent", st.readonly_silent_checks);
     rep.bump("restricted_partial_mut_on_tracked", st.restricted_partial_mut);
     rep.bump("get_other_mut_on_stale_occupied", st.get_other_mut_stale);
+    rep.bump("entities_created_unmerged", st.unmerged_created);
+    rep.bump("get_other_on_unmerged_member", st.get_other_unmerged);
     rep.bump("stale_probes_on_occupied_index", st.stale_occupied);
     rep.bump("members_on_layer_boundaries", st.boundary_indices);
     rep.bump("mask_update_unwound_probes", big_index_probe);
